@@ -23,8 +23,19 @@ def abandoned_cases(rng, n):
             "find all at least 1 ((%s = %s %s) or %s) fewest %s" % (a, x, b, a, c),
             "set p to pattern %s = %s %s\nfind all p or (%s %s)" % (a, x, b, a, c),
         ]
+        # named loops: a binding made inside an unnamed loop (or group) nested in a named loop, behind a choice point, on a path that is then abandoned
+        lo = rng.choice(["at least 0", "at most 2", "between 0 and 2", "maybe", "at least 1"])
+        nforms = [
+            "find all at least 1 ( %s ( ((%s = %s) '=') or (%s '-') ) ';' ) named grp" % (lo, a, x, a),
+            "find all at least 1 ( %s ( maybe (any = %s) digit ) ';' ) named num" % (lo, x),
+            "find all at least 1 ( ( ((%s = %s) %s) or (%s %s) ) ';' ) named g" % (a, x, b, a, c),
+            "find all at least 1 ( %s ( (at least 1 (%s = %s) named inner %s) or %s ) ';' ) named outer" % (lo, a, x, b, a),
+            "find all at least 1 ( (%s = %s) %s (maybe (%s = %s %s)) ',' ) named row" % (a, x, lo, a, "w", b),
+        ]
+        if rng.random() < 0.3:
+            forms = nforms
         src = rng.choice(forms)
-        texts = [rng.choice(["ac", "abac", "aac", "zac", "a1ac", "abab", "aad", "abc", "aaa", "ab1ac a"]) for _ in range(3)]
+        texts = [rng.choice(["ac", "abac", "aac", "zac", "a1ac", "abab", "aad", "abc", "aaa", "ab1ac a", "a-;", "b=a-;", "a=;a-;", "+1;2;", "a=b-;c=;", "ab,a,", "a=;"]) for _ in range(4)]
         texts += [genprog.gen_text(rng, "abcd", 8) for _ in range(3)]
         out.append({"src": src, "texts": texts})
     return out
